@@ -105,7 +105,7 @@ def run_unit(unit, repo_root, rlimit=None, extra_args=None, canary=False, timeou
         text = add_canaries(text)
     outdir = os.path.join(SCRATCH, 'verus')
     os.makedirs(outdir, exist_ok=True)
-    fed = os.path.join(outdir, unit + ('.canary' if canary else '') + '.rs')
+    fed = os.path.join(outdir, unit + ('_canary' if canary else '') + '.rs')
     open(fed, 'w').write(text)
     res.fed_path = fed
     res.functions = ex.functions
@@ -198,7 +198,8 @@ def add_canaries(text):
 
 if __name__ == '__main__':
     unit = sys.argv[1]
-    repo = sys.argv[2] if len(sys.argv) > 2 else '/repo'
+    _pos = [a for a in sys.argv[2:] if not a.startswith('--')]
+    repo = _pos[0] if _pos else '/repo'
     r = run_unit(unit, repo, canary='--canary' in sys.argv)
     print('status', r.status, r.reason)
     print('verified', r.verified, 'errors', r.n_errors, 'wall %.1fs smt %dms' % (r.wall_s, r.smt_ms))
@@ -207,6 +208,12 @@ if __name__ == '__main__':
         for s in e['spans'][1:]:
             print('       ', s)
     if r.status != 'ok' and not r.errors:
-        print(getattr(r, 'raw_stderr', '')[-3000:])
+        import json as _j
+        for ln in getattr(r, 'raw_stderr', '').split('\n'):
+            if ln.startswith('{'):
+                try:
+                    d = _j.loads(ln)
+                    if d.get('level') == 'error': print(d.get('rendered', '')[:1500])
+                except Exception: pass
     print('rules', r.rule_counts)
     print('fed', r.fed_path)
